@@ -357,6 +357,7 @@ func (w *world) step() {
 		w.svc.nreq = 0
 		w.svc.mu.Unlock()
 		mid := "-"
+		midPanic := false
 		var hook func(string, string, int)
 		if r.Intn(3) == 0 {
 			k := 1 + r.Intn(3)
@@ -384,7 +385,14 @@ func (w *world) step() {
 					mid = fmt.Sprintf("%d/read/%s", k-1, hx(n))
 					hook = func(_, _ string, nth int) {
 						if nth == k {
-							h.Get()
+							func() {
+								defer func() {
+									if p := recover(); p != nil {
+										midPanic = true
+									}
+								}()
+								h.Get()
+							}()
 						}
 					}
 				}
@@ -416,7 +424,7 @@ func (w *world) step() {
 				mid = "-" // the hook never fired (fewer requests than expected)
 			}
 		}
-		emit("poll\tkind=%s\tnow=%d\tmid=%s\tsvcbefore=%s\tsvc=%s\tres=%s\treqs=%s\tsnap=%s\twrites=%s", kind, w.clock, mid, before, w.svc.state(), res, w.svc.reqs(), snapString(w.st), w.cache.takeWrites())
+		emit("poll\tkind=%s\tnow=%d\tmidpanic=%s\tmid=%s\tsvcbefore=%s\tsvc=%s\tres=%s\treqs=%s\tsnap=%s\twrites=%s", kind, w.clock, b01(midPanic), mid, before, w.svc.state(), res, w.svc.reqs(), snapString(w.st), w.cache.takeWrites())
 	case x < 16: // clock
 		d := pick(r, []int64{1, 5, 11, 100, 3601, 100000})
 		w.clock += d
